@@ -7,7 +7,7 @@
 //! opened once more.
 use crate::child::{copy_tree, list_tree, name_sx, sx_name};
 use crate::dbproc::{DbProc, Reply, Scratch};
-use crate::hist::{lvsig, parse_dump, Dump};
+use crate::hist::{linearise, lvsig, model_cfg, parse_disk, parse_dump, Dump, Lin};
 use lvharness::suite::Outcome;
 use lvharness::sx::Sx;
 use std::collections::{BTreeMap, BTreeSet};
@@ -156,6 +156,98 @@ fn spec_sx(spec: &BTreeMap<String, Vec<String>>) -> Sx {
     lst(spec.iter().map(|(t, cols)| lst(vec![name_sx(t), lst(cols.iter().map(|c| name_sx(c)).collect())])).collect())
 }
 
+fn part_id_of(file: &str) -> Option<u64> {
+    let f = file.split('_').next()?;
+    if f.len() == 5 {
+        f.parse().ok()
+    } else {
+        None
+    }
+}
+
+/// the effects recovery can tell apart, grouped and sorted like the model prints them
+/// (ocaml/store/lvmodel.ml: store_effects)
+fn canonical_trace(entries: &[Sx], snapdir: &Path) -> Sx {
+    let mut out: Vec<(u8, Sx)> = vec![];
+    let mut seen: BTreeSet<String> = BTreeSet::new();
+    for e in entries {
+        let it = e.items();
+        let n = it[0].as_usize();
+        let op = it[1].atom();
+        let path = sx_name(&it[2]);
+        let to = it[3].as_opt().map(sx_name);
+        let wal_tmp_id = path
+            .strip_prefix("wal/")
+            .and_then(|r| r.strip_suffix("..INCOMPLETE"))
+            .and_then(|x| x.parse::<u64>().ok());
+        let item = match (op, wal_tmp_id, &to) {
+            ("create", Some(id), _) => Some((0, lst(vec![a("waltmp-create"), Sx::int(id)]))),
+            ("write", Some(id), _) => Some((1, lst(vec![a("waltmp-write"), Sx::int(id)]))),
+            ("rename", Some(id), _) => Some((2, lst(vec![a("wal-rename"), Sx::int(id)]))),
+            ("rename", None, Some(t)) if t == "meta" => {
+                // the cursor the new catalogue file holds
+                let (m, _) = parse_disk(&crate::child::disk_sx(&snapdir.join(format!("{}", n))));
+                let c = match m {
+                    Ok(Some((c, _))) => c as i64,
+                    _ => -1,
+                };
+                Some((4, lst(vec![a("meta"), Sx::int(c)])))
+            }
+            ("rename", None, Some(t)) if t.starts_with("tables/") => {
+                let mut parts = t["tables/".len()..].splitn(2, '/');
+                let table = parts.next().unwrap_or("");
+                let file = parts.next().unwrap_or("");
+                part_id_of(file).map(|id| (3, lst(vec![a("store"), name_sx(table), Sx::int(id)])))
+            }
+            ("remove", None, _) if path.starts_with("tables/") => {
+                let mut parts = path["tables/".len()..].splitn(2, '/');
+                let table = parts.next().unwrap_or("");
+                let file = parts.next().unwrap_or("");
+                part_id_of(file).map(|id| (5, lst(vec![a("rmpart"), name_sx(table), Sx::int(id)])))
+            }
+            ("remove", None, _) if path.starts_with("wal/") => path["wal/".len()..]
+                .strip_suffix(".wal")
+                .and_then(|x| x.parse::<u64>().ok())
+                .map(|id| (6, lst(vec![a("rmwal"), Sx::int(id)]))),
+            _ => None,
+        };
+        if let Some((g, x)) = item {
+            // several sub-partition files of one partition are one effect of the model
+            if seen.insert(x.to_string()) {
+                out.push((g, x));
+            }
+        }
+    }
+    // stable: groups in protocol order, members of a group by their printed form
+    out.sort_by(|x, y| (x.0, x.1.to_string()).cmp(&(y.0, y.1.to_string())));
+    lst(out.into_iter().map(|x| x.1).collect())
+}
+
+/// the order the proof of C09 rests on, read off the raw trace: partition files are renamed into
+/// place before the catalogue file is, and nothing is removed before that
+fn order_violation(entries: &[Sx]) -> Option<String> {
+    let mut meta_at: Option<usize> = None;
+    for (i, e) in entries.iter().enumerate() {
+        let it = e.items();
+        if it[1].atom() == "rename" && it[3].as_opt().map(sx_name).as_deref() == Some("meta") {
+            meta_at = Some(i);
+        }
+    }
+    let m = meta_at?;
+    for (i, e) in entries.iter().enumerate() {
+        let it = e.items();
+        let op = it[1].atom();
+        let path = sx_name(&it[2]);
+        if op == "rename" && path.starts_with("tables/") && i > m {
+            return Some(format!("partition file {} renamed into place after the catalogue file", path));
+        }
+        if op == "remove" && i < m {
+            return Some(format!("{} removed before the catalogue file was replaced", path));
+        }
+    }
+    None
+}
+
 /// open a copy of `dir`, report what it serves; `snap`: directory for the copies taken at the
 /// recovery's own effects
 fn reopen(
@@ -296,6 +388,9 @@ pub fn run_crash(input: &Sx) -> Vec<Outcome> {
         violation("workload:open-failed".into(), "could not open a fresh database".into(), &mut outs);
     }
     let mut n_seen = 0usize;
+    let mut hops: Vec<Sx> = vec![];
+    let mut traces: Vec<Sx> = vec![];
+    let mut trace_ok = true;
     for (oi, op) in ops.iter().enumerate() {
         if !alive {
             break;
@@ -327,6 +422,33 @@ pub fn run_crash(input: &Sx) -> Vec<Outcome> {
             break;
         }
         let _ = p.request(&lst(vec![a("quiesce")]), Duration::from_secs(25));
+        // the operation as the model is to execute it (sizes from the storage hooks)
+        if let Reply::Ok(ev) = p.request(&lst(vec![a("events")]), Duration::from_secs(10)) {
+            let lin = linearise(ev.items()[1].items());
+            match kind.as_str() {
+                "ingest" => match lin.first() {
+                    Some(Lin::Ingest { bytes, .. }) if lin.len() == 1 => {
+                        hops.push(lst(vec![a("ingest"), Sx::int(*bytes), op.items()[1].clone()]))
+                    }
+                    _ => trace_ok = false,
+                },
+                "flush" => match lin.first() {
+                    Some(Lin::Flush(f)) if lin.len() == 1 => {
+                        let o = f.sizes.iter().map(|(t, (b, c))| lst(vec![name_sx(t), Sx::int(*b), Sx::int(*c)])).collect();
+                        hops.push(lst(vec![a("flush"), Sx::boolean(false), lst(o)]))
+                    }
+                    _ => trace_ok = false,
+                },
+                "restart" => {
+                    if lin.is_empty() {
+                        hops.push(lst(vec![a("restart")]))
+                    } else {
+                        trace_ok = false
+                    }
+                }
+                _ => {}
+            }
+        }
         let eff = match p.request(&lst(vec![a("effects")]), Duration::from_secs(10)) {
             Reply::Ok(s) => s,
             _ => {
@@ -334,6 +456,12 @@ pub fn run_crash(input: &Sx) -> Vec<Outcome> {
                 break;
             }
         };
+        traces.push(canonical_trace(eff.items()[2].items(), &snaps.path().join(format!("life{}", life))));
+        if kind == "flush" {
+            if let Some(why) = order_violation(eff.items()[2].items()) {
+                violation("effect-order".into(), format!("flush (op {}): {}", oi, why), &mut outs);
+            }
+        }
         for e in eff.items()[2].items() {
             let ei = e.items();
             let n = ei[0].as_usize();
@@ -520,6 +648,19 @@ pub fn run_crash(input: &Sx) -> Vec<Outcome> {
             let _ = std::fs::remove_dir_all(&v);
             let _ = std::fs::remove_dir_all(&snap2);
         }
+    }
+    if alive && trace_ok && hops.len() == traces.len() {
+        outs.insert(
+            0,
+            Outcome {
+                model: Some("store_effects".into()),
+                model_input: Some(lst(vec![model_cfg(&opts, false), lst(hops.clone())])),
+                impl_out: Some(lst(traces.clone())),
+                oracle: None,
+                signature: None,
+                nontrivial: true,
+            },
+        );
     }
     outs.insert(
         0,
